@@ -77,5 +77,11 @@ func init() {
 	register("C09", "", ruleCancelOwnership, ruleSemaphorePairing(scDownstream))
 	register("C08", "", ruleCancelOwnership)
 	register("C18", "", ruleCancelOwnership)
+	register("C13", "", ruleStepListLoops)
+	register("C01", "", ruleStepListLoops)
+	register("C06", "", ruleFailFast)
+	register("C09", "", ruleFailFast)
+	register("XK", "debug: effect kinds", dumpKinds)
+	register("C07", "", ruleWholeBodyDecode)
 	register("X6", "debug: R6 over whole module", ruleErr(errScope{label: "all", pkgs: []string{"pebbles", "common", "executor", "format", "gqlerrors", "introspection", "merger", "planner", "queryer", "requests"}}))
 }
